@@ -300,6 +300,28 @@ func runC15(w *World, r *Report) {
 		}
 	}
 
+	r.rule("lib-preconditions-positive", "math/rand's Intn / Int31n / Int63n / Perm-style calls whose argument depends on request or peer-table state are reached only with a provably positive argument (they panic on n <= 0)", 0)
+	nRand := 0
+	for _, fn := range w.RepoFuncs("gossip", "notaryserver", "webhooksserver", "transformers", "wallet", "cache", "accountant") {
+		for _, c := range callsTo(fn, "math/rand.Intn", "math/rand.Int31n", "math/rand.Int63n", "math/rand/v2.IntN", "math/rand/v2.Int64N", "math/rand/v2.N") {
+			nRand++
+			arg := c.Common().Args[0]
+			ok, why := false, "argument is not provably positive"
+			if k, isK := intConst(arg); isK {
+				ok = k > 0
+			} else if p, off, isLen := lenExpr(arg); isLen {
+				ok, why = fe.Holds(c.(ssa.Instruction), pfact{kind: kLenMin, path: p, min: 1 - off}, 0)
+				if !ok {
+					why = fmt.Sprintf("needs len(%s) >= %d on every path: %s", p, 1-off, why)
+				}
+			}
+			r.check(ok, "lib-preconditions-positive", shortFn(fn)+"/"+shortCallee(c), lineOf(w, c), "the bound handed to "+shortCallee(c)+" is positive", why)
+		}
+	}
+	if nRand == 0 {
+		r.ok("lib-preconditions-positive", "none", "-", "no bounded random draw in the request-handling packages")
+	}
+
 	// a vertex the ledger rejects leaves no reservation behind (the ledger side of "a rejected request changes nothing")
 	rollbackReservation(w, r, "rejected-admission-leaves-no-index-entry")
 
